@@ -37,10 +37,27 @@ def homog (cs : List Int) (z y : Nat) : MPoly :=
 def uni (x : Nat) (cs : List Int) : MPoly :=
   MPoly.normalize none (cs.zipIdx.map (fun (c : Int × Nat) => ((if c.2 = 0 then [] else [(x, c.2)]), c.1)))
 
-/-- dense coefficient list in the variable `x` of a polynomial in `x` alone -/
+/-- value of a constant polynomial (0 for anything else; `isConstPoly` is checked by the callers) -/
+def constOf (q : MPoly) : Int :=
+  match q with
+  | [([], c)] => c
+  | _ => 0
+
+def isConstPoly (q : MPoly) : Bool :=
+  match q with
+  | [] => true
+  | [([], _)] => true
+  | _ => false
+
+/-- is `p` a polynomial in the variable `x` alone? (every coefficient in x is a constant) -/
+def univariateIn (x : Nat) (p : MPoly) : Bool :=
+  (List.range (MPoly.degreeIn x p + 1)).all (fun i => isConstPoly (MPoly.coeffIn none x i p))
+
+/-- dense coefficient list in the variable `x` of a polynomial in `x` alone; `[]` (treated as "no eliminant" by the
+    callers) if other variables remain -/
 def dense (x : Nat) (p : MPoly) : List Int :=
-  let d := MPoly.degreeIn x p
-  (List.range (d + 1)).map (fun i => ((p.find? (fun t => Mono.degreeIn x t.1 = i)).map (·.2)).getD 0)
+  if univariateIn x p then (List.range (MPoly.degreeIn x p + 1)).map (fun i => constOf (MPoly.coeffIn none x i p))
+  else []
 
 inductive Op | add | mul | pow (n : Nat)
 deriving Repr, DecidableEq
